@@ -1,7 +1,7 @@
 #!/usr/bin/env python3
 """Run every seeded change against its property's check (scratch worktree + WZ_REPO) and write
 seeded/<id>/meta.json + seeded/RESULTS.md.  usage: tools/seedall.py [Cxx ...] [--no-suite]"""
-import json, os, re, subprocess, sys
+import fnmatch, json, os, re, subprocess, sys
 os.chdir('/verif')
 args = [a for a in sys.argv[1:] if not a.startswith('--')]
 nosuite = '--no-suite' in sys.argv
@@ -11,7 +11,7 @@ for d in sorted(os.listdir('seeded')):
     if not os.path.isdir(p) or not os.path.exists(os.path.join(p, 'patch.diff')):
         continue
     prop = d.split('-')[0]
-    if args and prop not in args:
+    if args and prop not in args and not any(fnmatch.fnmatch(d, a) for a in args):
         continue
     if not os.path.exists(f'harness/{prop.lower()}.py'):
         rows.append((d, 'no check yet', '', '')); continue
